@@ -480,7 +480,13 @@ fn ids(base: i64, len: usize) -> Vec<f64> {
 
 fn run_case(ctx: &mut Ctx, rng: &mut tvmon::rng::Rng, len: usize, w: usize, kind: CbKind, full: bool) {
     let x = ids(XB, len);
-    let y = ids(YB, len);
+    // the second series may legally be longer than the first (the drivers assert other.len() >= len);
+    // positions, window arguments and the output length are those of the first series
+    let extra = [0usize, 0, 1, 2][rng.below(4)];
+    if extra > 0 {
+        ctx.count("second_series_longer");
+    }
+    let y = ids(YB, len + extra);
     // Vec fast path into every output container
     drive_all::<Vec<f64>, f64, Vec<f64>, f64>(ctx, &x, &y, len, w, "vec->vec", kind, true);
     drive_all::<Vec<f64>, f64, SpyOut<f64>, f64>(ctx, &x, &y, len, w, "vec->spyout", kind, true);
@@ -583,7 +589,7 @@ fn main() {
         }
     }
     // random larger cases
-    let nr = if miri { 0 } else { ctx.budget(60, 1500) };
+    let nr = if miri { 0 } else { ctx.cbudget(60, 1500) };
     for _ in 0..nr {
         if let Some(mut rng) = ctx.random_case() {
             let len = rng.range_usize(20, 300);
